@@ -58,7 +58,7 @@ public:
 
   //! Scalar multiplication
   const Quaternion& operator *= (const T& a)
-    { s0*=a; s1*=a; s2*=a; s3*=a; return *this; }
+    { const T s (a); s0*=s; s1*=s; s2*=s; s3*=s; return *this; }
 
   //! Scalar division
   const Quaternion& operator /= (const T& a)
